@@ -359,6 +359,199 @@ the record list is modelled. -/
 def unrepairedRecords (mode : Mode) (files : List (String × Stream)) : List Record :=
   readAll mode {} (files.map (·.2)).flatten
 
+/-! ## RS / FS assignment and the choice of the way of reading / splitting
+
+`run.c:set_global` (cases `HAWK_GBL_RS`, `HAWK_GBL_FS`, `HAWK_GBL_CONVFMT`, `HAWK_GBL_IGNORECASE`) with the repair
+`patches/c04-rs-fs-text-fixed-at-assignment.diff` (`set_separator`), `rio.c:resolve_rs` / `resolve_brs` and the
+four-way dispatch of `hawk_rtx_readio` / `hawk_rtx_readiobytes`, `rec.c:split_record` (`how`).
+
+The unrepaired readers converted the *value* of RS (FS) to a text again at every read (split), under the CONVFMT of
+that moment, while the regular expression in `rtx->gbl.rs` (`fs`) had been compiled - or not - from the text at the
+assignment: `selReadUnrepaired` / `Sel.crash`. -/
+
+/-- a value as far as its conversion to a text goes; the argument is the CONVFMT text in force -/
+structure Val where
+  isNil : Bool
+  /-- `hawk_rtx_valtooocstrdup` -/
+  text : List Char → List Char
+  /-- `hawk_rtx_valtobcstrdup` (bytes) -/
+  btext : List Char → List Nat
+
+/-- the unset value -/
+def nilVal : Val := ⟨true, fun _ => [], fun _ => []⟩
+
+/-- a string of ASCII characters: the same text under every CONVFMT -/
+def strVal (s : List Char) : Val := ⟨false, fun _ => s, fun _ => s.map Char.toNat⟩
+
+/-- what the run-time context keeps of RS (of FS) -/
+structure Sep where
+  /-- the value on the stack (`HAWK_RTX_STACK_GBL`) -/
+  val : Val
+  /-- `gbl.rstext` (`fstext`): `none` = `ptr == HAWK_NULL` -/
+  text : Option (List Char)
+  /-- `gbl.rsbtext` (`fsbtext`) -/
+  btext : Option (List Nat)
+  /-- `gbl.rs[0..1]` (`fs`): the text they were compiled from, `none` = `HAWK_NULL` -/
+  rex : Option (List Char)
+
+structure Env where
+  convfmt : List Char
+  ignorecase : Bool
+  rs : Sep
+  fs : Sep
+
+/-- "it's a regular expression if it is longer than a character, or than a byte for those that read bytes. however, FS
+is not a regular expression if it's 5 character string beginning with a question mark" -/
+def isRexText (fsv : Bool) (t : List Char) (b : List Nat) : Bool :=
+  (decide (t.length > 1) || decide (b.length > 1)) && !(fsv && decide (t.length = 5) && t.head? == some '?')
+
+/-- `set_separator`: `none` = the assignment fails (`hawk_rtx_buildrex` rejects the text, `ok t = false`) and nothing
+is changed -/
+def setSeparator (ok : List Char → Bool) (fsv : Bool) (fmt : List Char) (v : Val) : Option Sep :=
+  if v.isNil then some ⟨v, none, none, none⟩
+  else
+    let t := v.text fmt
+    let b := v.btext fmt
+    if isRexText fsv t b then
+      if ok t then some ⟨v, some t, some b, some t⟩ else none
+    else some ⟨v, some t, some b, none⟩
+
+inductive SepOp where
+  | convfmt (f : List Char)
+  | ignorecase (b : Bool)
+  | setRS (v : Val)
+  | setFS (v : Val)
+  /-- `RS = RS`: `old == val`, set_global returns before its switch -/
+  | sameRS
+  | sameFS
+
+def Env.step (ok : List Char → Bool) (e : Env) : SepOp → Env
+  | .convfmt f => { e with convfmt := f }
+  | .ignorecase b => { e with ignorecase := b }
+  | .setRS v => match setSeparator ok false e.convfmt v with
+    | some s => { e with rs := s }
+    | none => e
+  | .setFS v => match setSeparator ok true e.convfmt v with
+    | some s => { e with fs := s }
+    | none => e
+  | .sameRS => e
+  | .sameFS => e
+
+/-- after `defaultify_globals`: CONVFMT = "%.6g", FS = " " (both assigned through set_global), RS nil -/
+def defaultFmt : List Char := ['%', '.', '6', 'g']
+
+def env0 : Env :=
+  { convfmt := defaultFmt, ignorecase := false,
+    rs := ⟨nilVal, none, none, none⟩,
+    fs := ⟨strVal [' '], some [' '], some [32], none⟩ }
+
+def Env.run (ok : List Char → Bool) (e : Env) (ops : List SepOp) : Env := ops.foldl (Env.step ok) e
+
+/-- the dispatch at rio.c:480/530/618/644 (`α` = characters for `hawk_rtx_readio`, bytes for `hawk_rtx_readiobytes`) -/
+inductive Sel (α : Type) where
+  | dflt
+  | para
+  | single (c : α)
+  /-- `match_long_rs` with the expression compiled from `src`, `rtx->gbl.rs[ignorecase]` -/
+  | regex (src : List Char) (ic : Bool)
+  /-- `match_long_rs` with `rtx->gbl.rs[..] == HAWK_NULL`: null pointer dereference in `hawk_tre_exec…` -/
+  | crash
+deriving DecidableEq, Repr
+
+def selOfText {α : Type} (rex : Option (List Char)) (ic : Bool) : Option (List α) → Sel α
+  | none => .dflt
+  | some [] => .para
+  | some [c] => .single c
+  | some (_ :: _ :: _) => match rex with
+    | some r => .regex r ic
+    | none => .crash
+
+/-- `hawk_rtx_readio` (repaired): by the text kept at the assignment -/
+def selRead (e : Env) : Sel Char := selOfText e.rs.rex e.ignorecase e.rs.text
+/-- `hawk_rtx_readiobytes` (repaired) -/
+def selReadBytes (e : Env) : Sel Nat := selOfText e.rs.rex e.ignorecase e.rs.btext
+
+/-- the unrepaired `resolve_rs`: the value converted again, under the CONVFMT of the moment of the read -/
+def selReadUnrepaired (e : Env) : Sel Char :=
+  selOfText e.rs.rex e.ignorecase (if e.rs.val.isNil then none else some (e.rs.val.text e.convfmt))
+def selReadBytesUnrepaired (e : Env) : Sel Nat :=
+  selOfText e.rs.rex e.ignorecase (if e.rs.val.isNil then none else some (e.rs.val.btext e.convfmt))
+
+/-- `split_record`'s `how` -/
+inductive How where
+  /-- `how = 0`: `hawk_rtx_tokoocharswithoochars` with the (at most one-character) text -/
+  | chars (t : List Char)
+  /-- `how = 1`: `?` and four characters, `hawk_rtx_fldoochars` -/
+  | fld (t : List Char)
+  /-- `how = 2`: `hawk_rtx_tokoocharsbyrex` with `rtx->gbl.fs[ignorecase]`, compiled from `src` -/
+  | rex (src : List Char) (ic : Bool)
+  | crash
+deriving DecidableEq, Repr
+
+def howOfText (rex : Option (List Char)) (ic : Bool) : Option (List Char) → How
+  | none => .chars [' ']
+  | some t =>
+    if t.length = 5 ∧ t.head? = some '?' then .fld t
+    else if t.length ≤ 1 then .chars t
+    else match rex with
+      | some r => .rex r ic
+      | none => .crash
+
+def howSplit (e : Env) : How := howOfText e.fs.rex e.ignorecase e.fs.text
+def howSplitUnrepaired (e : Env) : How :=
+  howOfText e.fs.rex e.ignorecase (if e.fs.val.isNil then none else some (e.fs.val.text e.convfmt))
+
+/-- the `Mode` of the record reader for a selection; `mk src ic` is the matcher of the compiled expression -/
+def Sel.toMode (mk : List Char → Bool → Matcher) (crlf : Bool) : Sel Char → Option Mode
+  | .dflt => some .dflt
+  | .para => some (.para crlf)
+  | .single c => some (.single c)
+  | .regex src ic => some (.regex (mk src ic))
+  | .crash => none
+
+/-! ### what the English says: the separator in force is the one fixed at the last assignment -/
+
+/-- the history as far as the property is concerned: CONVFMT now, and for RS and FS the value last assigned with
+success together with the CONVFMT of that moment -/
+structure Last where
+  fmt : List Char
+  rs : Val × List Char
+  fs : Val × List Char
+
+/-- the assignment goes through -/
+def accepts (ok : List Char → Bool) (fsv : Bool) (fmt : List Char) (v : Val) : Bool :=
+  v.isNil || !isRexText fsv (v.text fmt) (v.btext fmt) || ok (v.text fmt)
+
+def Last.step (ok : List Char → Bool) (l : Last) : SepOp → Last
+  | .convfmt f => { l with fmt := f }
+  | .ignorecase _ => l
+  | .setRS v => if accepts ok false l.fmt v then { l with rs := (v, l.fmt) } else l
+  | .setFS v => if accepts ok true l.fmt v then { l with fs := (v, l.fmt) } else l
+  | .sameRS => l
+  | .sameFS => l
+
+def last0 : Last := ⟨defaultFmt, (nilVal, defaultFmt), (strVal [' '], defaultFmt)⟩
+
+def Last.run (ok : List Char → Bool) (l : Last) (ops : List SepOp) : Last := ops.foldl (Last.step ok) l
+
+/-- the text of the separator: that of the value under the CONVFMT *of the assignment*; `none` for nil -/
+def sepText (a : Val × List Char) : Option (List Char) := if a.1.isNil then none else some (a.1.text a.2)
+def sepBText (a : Val × List Char) : Option (List Nat) := if a.1.isNil then none else some (a.1.btext a.2)
+
+/-- the way of reading that belongs to a text: newline / paragraph / one character / the text as a regular expression -/
+def specSel {α : Type} (src : Option (List Char)) (ic : Bool) : Option (List α) → Sel α
+  | none => .dflt
+  | some [] => .para
+  | some [c] => .single c
+  | some (_ :: _ :: _) => .regex (src.getD []) ic
+
+def specHow (ic : Bool) : Option (List Char) → How
+  | none => .chars [' ']
+  | some t =>
+    if t.length = 5 ∧ t.head? = some '?' then .fld t
+    else if t.length ≤ 1 then .chars t
+    else .rex t ic
+
 /-! ## literal separators (for `stable_of_literal`) -/
 
 /-- leftmost occurrence of a literal string -/
